@@ -238,7 +238,7 @@ PROPS = {
         "classify": c01_class,
         # non-trivial: Message::new accepted the message (every route and parser was exercised)
         "nontrivial": lambda cls: cls["new"] == "ok",
-        "rule": "cases = random headers over boundary classes x query/body lengths (quick <=4 KiB, thorough <=64 KiB) x body-Vec capacity relation x streaming chunkings x trailing bytes x server echo/own-query mode, all from one SplitMix64 seed; distinct = distinct case line; non-trivial = Message::new accepted it, so all 9 emission routes and 8 parser/reader entry points were compared Also (all tiers): queries and bodies of 2^16-1, 2^16, 2^16+1 bytes; a MessageBuilder route (same query/body/id/notify/format codes through the builder) whose 48 header bytes the driver compares with the encoding of the model's build.",
+        "rule": "cases = random headers over boundary classes x query/body lengths (quick <=4 KiB, thorough <=64 KiB) x body-Vec capacity relation x streaming chunkings x trailing bytes x server echo/own-query mode, all from one SplitMix64 seed; distinct = distinct case line; non-trivial = Message::new accepted it, so all 9 emission routes and 8 parser/reader entry points were compared Also (all tiers): queries and bodies of 2^16-1, 2^16, 2^16+1 bytes; a MessageBuilder route (same query/body/id/notify/format codes through the builder) whose 48 header bytes the driver compares with the encoding of the model's build. cem= fields: create_error_message / create_error_response_like frames, judged against the model's build (query format 0, body format UTF-8).",
         "timeout_s": {"quick": 600, "thorough": 3000},
     },
     "C02": {
@@ -274,7 +274,7 @@ PROPS = {
         "harness": "c19", "driver": "c19", "shards": 4, "harness_shards": 16,
         "classify": c19_class,
         "nontrivial": lambda cls: cls["scenario"] == "broadcast-tags" or cls.get("script_len", 0) >= 1,
-        "rule": "cases = every per-attempt behaviour script of length <= min(max+1,3) (quick; at most one silent attempt) / <= max+2 (thorough) over {refused, accepted-then-closed, closed-while-idle, silent, malformed reply, application error, success} for max_attempts 1..3, blocking and async fleet, each followed by len+2 calls during which the node turns healthy; the fleet.attempt probe switches the scripted node synchronously before every attempt; plus tag-subset broadcasts over up to 3 nodes x 3 tags; distinct = distinct scenario; non-trivial = non-empty script or a tag broadcast Scripted application-error replies carry varying codes (4096, Timeout, ResourceExhausted, InternalError, MethodNotFound); broadcast tag lists sometimes name every tag twice.",
+        "rule": "cases = every per-attempt behaviour script of length <= min(max+1,3) (quick; at most one silent attempt) / <= max+2 (thorough) over {refused, accepted-then-closed, closed-while-idle, silent, malformed reply, application error, success} for max_attempts 1..3, blocking and async fleet, each followed by len+2 calls during which the node turns healthy; the fleet.attempt probe switches the scripted node synchronously before every attempt; plus tag-subset broadcasts over up to 3 nodes x 3 tags; distinct = distinct scenario; non-trivial = non-empty script or a tag broadcast Scripted application-error replies carry varying codes (4096, Timeout, ResourceExhausted, InternalError, MethodNotFound); broadcast tag lists sometimes name every tag twice. Behaviour J (success frame with cut-short JSON: a reply, not retried); zero retry delay on even script lengths; slow=<i>: a broadcast node that answers after default_timeout but within its own timeout must still be reported; a result carrying both a value and an error is a violation (driver-level clause).",
         "timeout_s": {"quick": 900, "thorough": 3400},
     },
     "C17": {
@@ -302,7 +302,7 @@ PROPS = {
         "harness": "c12", "driver": "c12", "shards": 16, "harness_shards": 16,
         "classify": c12_class,
         "nontrivial": lambda cls: cls["parked_first"] in ("P", "ret", "park"),
-        "rule": "histories: a waiter (wait_for_credit / wait_for_reconnect, 20 s deadline) parked on a real thread; every single op of a 20-symbol alphabet and 200 (quick) / 3000 (thorough) random histories applied op by op from other threads, observation after each op within a 100 ms grace; directed immediate-return, dropped-pending and 64-bit corners; schedules: 500 / 10^4 cases of 2-3 signaller threads with random micro-sleeps whose outcome is interleaving-independent (verified by enumerating every interleaving in the extracted model); distinct = distinct case line; non-trivial = the waiter actually parked / a schedule",
+        "rule": "histories: a waiter (wait_for_credit / wait_for_reconnect, 20 s deadline) parked on a real thread; every single op of a 20-symbol alphabet and 200 (quick) / 3000 (thorough) random histories applied op by op from other threads, observation after each op within a 100 ms grace; directed immediate-return, dropped-pending and 64-bit corners; schedules: 500 / 10^4 cases of 2-3 signaller threads with random micro-sleeps whose outcome is interleaving-independent (verified by enumerating every interleaving in the extracted model); distinct = distinct case line; non-trivial = the waiter actually parked / a schedule; storms (32 / 160 cases x 60 / 250 rounds): 1..48 notifying acks that free nothing, then one deciding op, applied back to back with 0..80 us busy pauses while the waiter cycles through check-and-park; near-deadline waits (kind2=tmo, deadline 120..300 ms) under wake-ups 10..240 ms apart that never satisfy the wait: Timeout no earlier than the deadline and at most 250 ms after it (driver-level clause)",
         "timeout_s": {"quick": 600, "thorough": 3000},
     },
     "C14": {
@@ -316,7 +316,7 @@ PROPS = {
         "harness": "c09", "driver": "c09", "shards": 8, "harness_shards": 8,
         "classify": c09_class,
         "nontrivial": lambda cls: cls["chunks"] != "1" or cls["failure"] != "none",
-        "rule": "real sync-TCP and WebSocket servers, one SVS producer per (kind, element type, chunk_bytes, session_depth, compression); byte producers (reader, writer): payload lengths 0..3n+1 for n in {1,2,3,7,8}, all boundary residues k*n-1, k*n, k*n+1 for n in {64, 4096} (+65536, 1 MiB thorough), depths 0..3 (quick) / 0..8 (thorough), both compressions; every split of tiny payloads into <=3 writes plus random segmentations incl. zero-length and over-long writes; failure injected at 0, 1, L and every chunk boundary +-1, each both as an io::Error returned by the body writer / reader and as a panic of that application code on the producer thread; random sleeps in producer and consumer; BEVE producers (serde value, typed arrays, complex array) around the same boundaries; pullers blocking / async / WebSocket; per case: raw peer open, next until last or error, one more next; second stream with cancel then next; pull_to_vec / pull_value / pull_typed_slice / pull_complex_slice re-encoded; for zstd the harness decompresses the pulled bodies itself; distinct = distinct case line; non-trivial = not a single-chunk clean stream Producer failures alternate between io::ErrorKind::Other and UnexpectedEof. dup=1 cases: two connections pull one stream id with a gated producer; the two replies must be next_handler's two replies (one end marker, one error).",
+        "rule": "real sync-TCP and WebSocket servers, one SVS producer per (kind, element type, chunk_bytes, session_depth, compression); byte producers (reader, writer): payload lengths 0..3n+1 for n in {1,2,3,7,8}, all boundary residues k*n-1, k*n, k*n+1 for n in {64, 4096} (+65536, 1 MiB thorough), depths 0..3 (quick) / 0..8 (thorough), both compressions; every split of tiny payloads into <=3 writes plus random segmentations incl. zero-length and over-long writes; failure injected at 0, 1, L and every chunk boundary +-1, each both as an io::Error returned by the body writer / reader and as a panic of that application code on the producer thread; random sleeps in producer and consumer; BEVE producers (serde value, typed arrays, complex array) around the same boundaries; pullers blocking / async / WebSocket; per case: raw peer open, next until last or error, one more next; second stream with cancel then next; pull_to_vec / pull_value / pull_typed_slice / pull_complex_slice re-encoded; for zstd the harness decompresses the pulled bodies itself; distinct = distinct case line; non-trivial = not a single-chunk clean stream Producer failures alternate between io::ErrorKind::Other and UnexpectedEof. dup=1 cases: two connections pull one stream id with a gated producer; the two replies must be next_handler's two replies (one end marker, one error). Producer failure kinds err/eof/pipe/reset/inval; ae2= (next on a finished stream id while a second stream is open must not return a chunk); 300 003 random bytes through zstd from reader producers with a 3-byte first read.",
         "timeout_s": {"quick": 900, "thorough": 3400},
     },
     "C04": {
@@ -335,14 +335,14 @@ PROPS = {
     "C15": {
         "harness": "c15", "driver": "c15", "shards": 4, "harness_shards": 4,
         "classify": c15_class, "nontrivial": lambda cls: cls["handshake"] == "ok",
-        "rule": "cases = {serve_listener, serve_listener_with_graceful_drain, SharedWebSocketServer::accept(+_with_handshake)+serve_connection(+_with_cancel/_with_handshake), hand-rolled 101 + adopt_upgraded} x exit cause {clean close, socket loss, text frame, oversized frame, non-REPE binary frame, inline handler panic, embedder/shutdown token cancel, drain-deadline / task abort} x phase {idle, inline handler blocked, off-reader handler parked polling is_cancelled, outbound queue blocked on a slow peer, inside a blocking connect hook} with random hook configurations (counting / notifying / sleeping / alias-attaching hooks before and after with_peer_registry, handshake-aware hooks, 1..4 disconnect hooks around the registry's), plus a panicking connect hook at each position class and failed handshakes (garbage, wrong path, HTTP without upgrade); 1..4 (quick) / 1..32 (thorough) concurrent connections; per connection: callbacks ordered by a global sequence counter with registry.get/get_by sampled inside, registry after, frames seen by a raw tungstenite peer up to the first response, cancellation seen by the parked handler; plus staggered cases for every serving path: 2..4 connections under one server / shutdown trigger, connection 0 ended alone (clean close / socket loss / inline handler panic / protocol violation) while the others are idle or have a parked off-reader handler; after its disconnect hooks and a 300 ms settle each survivor must show 0 disconnect callbacks, presence in the registry with all its aliases, no cancellation seen, an answered fresh request, an un-cancelled embedder ShutdownToken, and a newly opened connection must be served; then the survivors are ended and judged by the usual clauses; distinct = distinct case; non-trivial = handshake succeeded two=1 cases: two servers built alike share the one peer registry, odd-numbered connections go to the second.",
+        "rule": "cases = {serve_listener, serve_listener_with_graceful_drain, SharedWebSocketServer::accept(+_with_handshake)+serve_connection(+_with_cancel/_with_handshake), hand-rolled 101 + adopt_upgraded} x exit cause {clean close, socket loss, text frame, oversized frame, non-REPE binary frame, inline handler panic, embedder/shutdown token cancel, drain-deadline / task abort} x phase {idle, inline handler blocked, off-reader handler parked polling is_cancelled, outbound queue blocked on a slow peer, inside a blocking connect hook} with random hook configurations (counting / notifying / sleeping / alias-attaching hooks before and after with_peer_registry, handshake-aware hooks, 1..4 disconnect hooks around the registry's), plus a panicking connect hook at each position class and failed handshakes (garbage, wrong path, HTTP without upgrade); 1..4 (quick) / 1..32 (thorough) concurrent connections; per connection: callbacks ordered by a global sequence counter with registry.get/get_by sampled inside, registry after, frames seen by a raw tungstenite peer up to the first response, cancellation seen by the parked handler; plus staggered cases for every serving path: 2..4 connections under one server / shutdown trigger, connection 0 ended alone (clean close / socket loss / inline handler panic / protocol violation) while the others are idle or have a parked off-reader handler; after its disconnect hooks and a 300 ms settle each survivor must show 0 disconnect callbacks, presence in the registry with all its aliases, no cancellation seen, an answered fresh request, an un-cancelled embedder ShutdownToken, and a newly opened connection must be served; then the survivors are ended and judged by the usual clauses; distinct = distinct case; non-trivial = handshake succeeded two=1 cases: two servers built alike share the one peer registry, odd-numbered connections go to the second. early=1: the shared token is cancelled before the connection is accepted (hooks still pair up); shk=1: every alias action also re-points a key shared by all connections at the current peer (a perturbation; not counted among the peer's own keys).",
         "timeout_s": {"quick": 900, "thorough": 3400},
     },
     "C16": {
         "harness": "c16", "driver": "c16", "shards": 2, "harness_shards": 16,
         "classify": c16_class,
         "nontrivial": lambda cls: cls["refused_at_cap"] == "True" or cls["notify_dropped"] == "True" or cls["panic"] == "True",
-        "rule": "cases = scripted histories on one live WebSocket connection with with_offreader_limit(cap), cap 1..3 and unlimited (quick) / 1..16 and unlimited (thorough), 0..2 middlewares: for cap <= 3 every release order x every exit kind {return, error, panic}^cap x every notify pattern (sampled 1/17 in quick), each with 4 x cap parked requests over the json/typed/ctx blocking routes, inline requests and notifies interleaved during saturation, optional refill after each exit, a fresh batch of cap (+1 refused) after all exits and a final inline call; random release orders for larger caps; random walks of 5..120 events; handlers park on per-request channels and keep an atomic gauge; a raw tungstenite peer with hand-built frames waits for the effect of every event; distinct = distinct script; non-trivial = a request was refused or dropped at the cap, or a handler panicked",
+        "rule": "cases = scripted histories on one live WebSocket connection with with_offreader_limit(cap), cap 1..3 and unlimited (quick) / 1..16 and unlimited (thorough), 0..2 middlewares: for cap <= 3 every release order x every exit kind {return, error, panic}^cap x every notify pattern (sampled 1/17 in quick), each with 4 x cap parked requests over the json/typed/ctx blocking routes, inline requests and notifies interleaved during saturation, optional refill after each exit, a fresh batch of cap (+1 refused) after all exits and a final inline call; random release orders for larger caps; random walks of 5..120 events; handlers park on per-request channels and keep an atomic gauge; a raw tungstenite peer with hand-built frames waits for the effect of every event; distinct = distinct script; non-trivial = a request was refused or dropped at the cap, or a handler panicked; bursts (pipe=1, oq=1..4): at the cap 2..96 requests leave the client in one write while the server's outbound queue holds 1..4 messages; odd tags panic with a non-string payload; slowrej= (a refusal at the cap that took more than 150 ms; driver-level clause)",
         "timeout_s": {"quick": 900, "thorough": 3400},
     },
     "C08": {
@@ -361,7 +361,7 @@ PROPS = {
     "C05": {
         "harness": "c05", "driver": "c05", "shards": 1, "harness_shards": 8, "classify": c05_class,
         "nontrivial": lambda cls: cls["writers"] != "1" or cls["torn"] == "True",
-        "rule": "per repetition (1 quick, 10 thorough): for each of blocking Client, AsyncClient, WebSocketClient, Server, AsyncServer and WebSocketServer, cases with 32, 16, 1-3 or 2-12 concurrent writers (threads or tasks on clones, pipelined requests, off-reader or inline responses plus pushed notifies) with frame lengths straddling 8 KiB, 16 KiB, 64 KiB, 212992, 1 MiB and 4 MiB (16/32 MiB in thorough) by -1/0/+1; stall with a 200 ms write timeout: an 8-32 MiB frame to a peer whose SO_RCVBUF was set to 4096 before listen/connect and which does not read for 900 ms, on Client, Server and AsyncServer; the same stall without a timeout on every endpoint; cancellation: an AsyncClient / WebSocketClient call aborted or timed out 0-200 ms into writing 8-16 MiB to a stalled peer; every case ends with two probe calls, then the raw peer reads to end of stream and analyses it with an independent byte-exact parser (tag, sequence number, position-keyed body pattern, checksum per frame); small streams are also parsed by the extracted Coq parse_frames; distinct = distinct case; non-trivial = more than one writer or a torn frame Also: blocking client with hundreds of frames that each fit the 8 KiB write buffer against a stalled peer with a write timeout; servers whose interrupted response is the last of the pipeline; cancelq (writers already queued behind the abandoned frame); a WebSocket server backlog of 200 queued pushes behind a stalled peer.",
+        "rule": "per repetition (1 quick, 10 thorough): for each of blocking Client, AsyncClient, WebSocketClient, Server, AsyncServer and WebSocketServer, cases with 32, 16, 1-3 or 2-12 concurrent writers (threads or tasks on clones, pipelined requests, off-reader or inline responses plus pushed notifies) with frame lengths straddling 8 KiB, 16 KiB, 64 KiB, 212992, 1 MiB and 4 MiB (16/32 MiB in thorough) by -1/0/+1; stall with a 200 ms write timeout: an 8-32 MiB frame to a peer whose SO_RCVBUF was set to 4096 before listen/connect and which does not read for 900 ms, on Client, Server and AsyncServer; the same stall without a timeout on every endpoint; cancellation: an AsyncClient / WebSocketClient call aborted or timed out 0-200 ms into writing 8-16 MiB to a stalled peer; every case ends with two probe calls, then the raw peer reads to end of stream and analyses it with an independent byte-exact parser (tag, sequence number, position-keyed body pattern, checksum per frame); small streams are also parsed by the extracted Coq parse_frames; distinct = distinct case; non-trivial = more than one writer or a torn frame Also: blocking client with hundreds of frames that each fit the 8 KiB write buffer against a stalled peer with a write timeout; servers whose interrupted response is the last of the pipeline; cancelq (writers already queued behind the abandoned frame); a WebSocket server backlog of 200 queued pushes behind a stalled peer. Driver-level clauses: idle= (the bytes a server had put on the wire before the probes must end at a frame boundary; last responses of 8192/8193/8200/8239 bytes), hung= (a call whose request left whole but which ended only by its own 20 s timeout).",
         "timeout_s": {"quick": 900, "thorough": 3400},
     },
 }
